@@ -18,10 +18,10 @@ func init() {
 }
 
 func checkC16(c *Ctx) {
-	c.Rule("R16.1", "column order and presence guards in consoleEncoder.EncodeEntry", 16)
-	c.Rule("R16.2", "separators only between non-empty parts; constructor defaults", 5)
+	c.Rule("R16.1", "column order and presence guards in consoleEncoder.EncodeEntry", 12)
+	c.Rule("R16.2", "separators only between non-empty parts; constructor defaults", 3)
 	c.Rule("R16.3", "context rendered by a clone of the spaced JSON encoder, namespaces closed before the emptiness test, braces, released", 6)
-	c.Rule("R16.4", "optional column encoders are nil-guarded", 10)
+	c.Rule("R16.4", "optional column encoders are nil-guarded", 6)
 
 	fn := c.Method(CorePath, "consoleEncoder", "EncodeEntry")
 	wc := c.Method(CorePath, "consoleEncoder", "writeContext")
